@@ -30,7 +30,7 @@ pub fn check_part(category: &str, m: &[(&'static str, report::Entries)], part: &
     if category == "vulnerabilities" {
         for h in ["## High Risk\n", "## Medium Risk\n", "## Low Risk\n"] {
             acc.eval();
-            let has = m.iter().any(|(p, _)| severity_of(p) == h);
+            let has = m.iter().any(|(p, es)| severity_of(p) == h && crate::mon::c11::has_findings(es));
             let printed = part.headings.iter().filter(|(x, _)| x == h).count();
             if has && printed == 0 {
                 acc.violation(format!("heading={}-missing", hname(h)), json!({"findings": map_json(m), "report": trunc(text, 2500)}));
@@ -121,6 +121,8 @@ pub fn run(ctx: &Ctx) -> i32 {
             }
         };
         acc.eval();
+        // a category part is expected iff the category has findings (keys with empty vectors do not count)
+        let present = (v.iter().any(|(_, e)| crate::mon::c11::has_findings(e)) as u64) | ((o.iter().any(|(_, e)| crate::mon::c11::has_findings(e)) as u64) << 1) | ((q.iter().any(|(_, e)| crate::mon::c11::has_findings(e)) as u64) << 2);
         acc.cov(&format!("presence:{:03b}", present));
         match report::parse_report(&text, &table) {
             Err(e) => acc.violation("report-grammar:whole-file", json!({"present_mask": present, "parse_error": e, "report": trunc(&text, 2500)})),
